@@ -225,7 +225,15 @@ func c11(c *Ctx) {
 		dl := ConstOfObj(c.konst("codes", "DeadlineExceeded"))
 		for _, lf := range phiLeaves(nf.Common().Args[0]) {
 			switch {
-			case unknown(lf.Val), dl(lf.Val):
+			case unknown(lf.Val):
+				_, miss := hasFact(lf.Facts, Truth(okv, false))
+				c.Expect(miss, nf, f, "unknown-only-for-an-unmapped-code", "UNKNOWN replaces a code that the table maps")
+			case dl(lf.Val):
+				// CANCELLED becomes DEADLINE_EXCEEDED only when the mapped code is CANCELLED and the RPC's own deadline has passed
+				_, a := hasFact(lf.Facts, Cmp(AnyV, token.EQL, ConstOfObj(c.konst("codes", "Canceled"))))
+				_, b := hasFact(lf.Facts, Truth(CallRes(CalleeX("time", "Time.After"), 0), false))
+				_, d := hasFact(lf.Facts, Truth(ExtractOf(CallRes(CalleeX("context", "Context.Deadline"), -1), 1), true))
+				c.Expect(a && b && d, nf, f, "deadline-exceeded-only-for-cancel-after-own-deadline", "DEADLINE_EXCEEDED is reported for an RST_STREAM although the code is not CANCEL or the RPC's own deadline has not passed")
 			case LookupOf(GlobalLoad(tab), AnyV)(lf.Val):
 				_, has := hasFact(lf.Facts, Truth(okv, true))
 				if !has {
